@@ -1,6 +1,7 @@
 import PsV.Driver.Common
 import PsV.Driver.C04
 import PsV.Driver.C16
+import PsV.Driver.C19
 import PsV.Driver.Eval
 import PsV.Driver.C15
 import PsV.Driver.C12
@@ -14,7 +15,8 @@ def drivers : List (String × IO Unit) :=
    ("EV", Eval.run),
    ("C16", C16.run),
    ("C15", stateless C15.handle),
-   ("C12", C12.run)]
+   ("C12", C12.run),
+   ("C19", stateless C19.handle)]
 
 def main (args : List String) : IO UInt32 := do
   match args with
